@@ -19,8 +19,10 @@ def exc? : Sexp → Option Exc
 
 def beh? : Sexp → Option Beh
   | .atom "ret" => some .ret
+  | .list [.atom "ret", v] => (nat? v).map fun _ => .ret           -- returns the value with token `v`: the model never looks at values
   | .list [.atom "raise", k] => (exc? k).map .raise
   | .list [.atom "fire", d] => (nat? d).map .fire
+  | .list [.atom "fire", d, v] => do let _ ← nat? v; (nat? d).map .fire   -- the Deferred fires with the value with token `v`
   | .list [.atom "faild", d, k] => do some (.failD (← nat? d) (← exc? k))
   | .atom "never" => some .never
   | _ => none
